@@ -40,7 +40,10 @@ def scenario(big: bool = False) -> Any:
                 # messages whose processing ends with an exception escaping the callback (the ack callback raises)
                 pre = [{"kind": "async", "at": 0.0, "dur": 0.0, "out": "ret", "ack": f, "timeout": None} for f in faults]
                 t0 = cm.r9(t0 + 0.6)
-            msgs = pre + [{"kind": "async", "at": t0, "dur": durs[k % len(durs)], "out": "ret", "ack": "sync", "timeout": None}
+            bt = d.get("burst_timeout")
+            # optionally every burst message carries a timeout label it exceeds, and its function needs a while (an awaited
+            # clean-up in `finally`) to stop once cancelled: it is unfinished until it has really stopped
+            msgs = pre + [dict({"kind": "async", "at": t0, "dur": durs[k % len(durs)], "out": "ret", "ack": "sync", "timeout": bt}, **({"cleanup": 0.4} if bt else {}))
                           for k in range(n)] + msgs[:2]
         elif fam == "relisten":
             # the broker connection breaks (listen() fails) while slow tasks are running; the SAME receiver listens again while
@@ -61,6 +64,7 @@ def scenario(big: bool = False) -> Any:
         d["msgs"] = cm.sort_msgs(msgs)
         if not d.pop("has_stop"):
             d["stop"] = None
+        d.pop("burst_timeout", None)
         d.update({"N": None, "W": None, "ends": True, "ack_type": "when_saved"})
         d["horizon"] = cm.horizon_for(d, 10.0)
         d["drain"] = 0.0
@@ -75,6 +79,7 @@ def scenario(big: bool = False) -> Any:
         "extra": st.integers(0, 6),
         "burst_durs": st.lists(st.sampled_from([1.0, 1.0, 2.0, 3.0, 0.35]), min_size=1, max_size=4),
         "burst_at": st.sampled_from([0.0, 0.0, 0.3, 0.45]),
+        "burst_timeout": st.sampled_from([None, None, None, 0.3, "0.3"]),
         "msgs": st.lists(msg, min_size=0, max_size=30),
         "stop": cm.times(120), "has_stop": st.sampled_from([False, False, False, True]),
         "save_latency": st.sampled_from([0.0, 0.0, 0.1]),
